@@ -590,6 +590,8 @@ def run(ctx):
     ctx.rule("R-6.15", "every in-process random draw of a move comes from the job's streams that restart.toml persists (shared with C07 R-7.4): a draw from the process-global generator is not reproduced by a restart", floor=10)
     from . import c07 as _c07
     ctx.attempt(_c07.r74, RuleProxy(ctx, "R-6.15", " (restart equivalence: the restart file persists the scheduler stream only; a draw from any other generator differs between the run and its restart)"))
+    ctx.rule("R-6.17", "a restart hands the re-issued and all later jobs the streams of the uninterrupted run: the restored spawn counter does not count jobs that pick_lock spawns again (shared with C07 R-7.9)", floor=1)
+    ctx.attempt(_c07.spawn_counter_not_double_counted, ctx, "R-6.17", " (restart equivalence: infretis_data.txt and restart.toml of the restarted run differ from the uninterrupted run)")
     ctx.rule("R-6.16", "the live paths in memory stay what is on disk: moves hand frames of their input paths to engines only as fresh copies and never extend an input path in place (shared with C09 R-9.3) - otherwise a rejected move leaves the in-memory path pointing at scratch files while a restart reloads the intact path", floor=13)
     from . import c09 as _c09
     ctx.attempt(_c09.r93, RuleProxy(ctx, "R-6.16", " (restart equivalence: the run in one go continues from the modified in-memory path, the restarted run from the intact path on disk)"), _c09.move_functions(ctx.tree))
@@ -600,6 +602,7 @@ def run(ctx):
 
 
 VARIANTS = [
+    B("c06-spawn-counter-counts-reissued-jobs", REPEX, "            n_children_spawned=self.cstep,", "            n_children_spawned=self.cstep + len(self.config[\"current\"].get(\"locked\", [])),", "R-6.17", control=True, why="seeded C06_l"),
     B("c06-zero-swap-hands-live-frame-to-engine", TIS, "path_old0.phasepoints[-1].copy()", "path_old0.phasepoints[-1]", "R-6.16", control=True, why="seeded C06_j"),
     B("c06-ase-integrator-loses-job-stream", ASE_REL, "dyn = self.Integrator(atoms, **integrator_settings)", "dyn = self.Integrator(atoms, **self.integrator_settings)", "R-6.15", control=True, why="seeded C06_i"),
     B("c06-commit-only-when-printing", REPEX, "            self.print_shooted(md_items, pn_news)\n        # save for possible restart\n        self.write_toml()", "            self.print_shooted(md_items, pn_news)\n            # save for possible restart\n            self.write_toml()", "R-6.14", control=True, why="seeded C06_g"),
